@@ -13,7 +13,10 @@ func (c *Config) MatchStandaloneJSON(t testingT, input any, matchers ...match.JS
 	t.Helper()
 
 	if c.extension == "" {
-		c.extension = ".json"
+		// default the extension on a copy, the caller's Config must not change
+		cc := *c
+		cc.extension = ".json"
+		c = &cc
 	}
 
 	matchStandaloneJSON(c, t, input, matchers...)
